@@ -228,6 +228,7 @@ def ops : List (String × Handler) := [
   -- run-time observations of the harness (goroutines left behind, time from cancel to return): the model
   -- expects "ok"
   ("mine.runtime", fun _ => "ok"),
+  ("mine.note", fun _ => "noted"),
   ("mine.trace", fun
     | [w, evs, result] => match w.toNat? with
       | some W => validate W (if evs == "_" then [] else evs.splitOn ",") result
